@@ -14,33 +14,44 @@ CASES = {'quick': 12000, 'thorough': 300000}
 PARALLEL = True
 PROOF_TIMEOUT = 1500
 RULE = ('random action programs: include tree <= 6 nodes, <= 12 actions incl. re-entrantly declared ones (depth <= 2), '
-        'histories of up to 3 commits on ONE ActionState/Configurator; repeated (equal) plain-None declarations; <= 4 discriminators (truthy tuples or the falsy hashables (), frozenset(), 0, \'\') + None + Deferred, phases from {-30,-20,-10,0,5} (+ rarely order=None), declared either '
+        'histories of up to 3 commits on ONE ActionState/Configurator; repeated (equal) plain-None declarations; callables of 7 kinds '
+        '(closure, falsy callable list / __bool__ False / __len__ 0 objects, partial, bound method, no callable) receiving args/kw they check; '
+        'in direct mode declared through ActionState.action (with and without its defaults), old-style tuples of 6/7/8 positions or ready-made dicts '
+        'appended to ActionState.actions; <= 4 discriminators (truthy tuples or the falsy hashables (), frozenset(), 0, \'\') + None + Deferred, phases from {-30,-20,-10,0,5} (+ rarely order=None), declared either '
         'directly on ActionState or through real nested Configurator.include configurators, executed with '
         'execute_actions()/commit(); plus resolveConflicts() driven directly on a fresh ConflictResolverState; '
         'non-trivial = at least two actions share a non-None discriminator (so the conflict machinery decides '
         'something); distinct by full case')
-ASSUMPTIONS = ['action dicts are pairwise unequal, EXCEPT repeated declarations of a None-discriminated action (equal dicts: modelled as '
+ASSUMPTIONS = ['an action without a callable is executed like any other; its (unobservable) Run event is removed from the model and specification logs',
+               'action dicts are pairwise unequal, EXCEPT repeated declarations of a None-discriminated action (equal dicts: modelled as '
                'the same action value twice; list.remove removes the first equal one); the theorems that need distinct '
                'identities (wf_ids) do not cover repetitions, the comparison with the specification does',
                'action callables do not raise and touch the action state only by declaring further actions',
                "order is an int for the theorems (order=None is modelled: 'order or 0', min_order = None)",
                'discriminators are compared by ==/hash; a Deferred is private to its action and its function is pure',
                'include specs are distinct (ActionState.processSpec de-duplication is not modelled)']
-TRUSTED = ['hand-written model coq/Model/C04.v of resolveConflicts, ConflictResolverState, ActionState.action, normalize_actions, '
-           'undefer/Deferred (shape-pinned, validated by correspondence)',
-           'harness/c04/translate.py: fail-closed ast -> Gallina translator of ActionState.execute_actions and '
-           'ActionConfiguratorMixin.action (control flow mechanical; 14-line primitive table in its docstring)',
+TRUSTED = ['hand-written model coq/Model/C04.v of resolveConflicts and undefer/Deferred (shape-pinned + piecewise facts, validated by correspondence)',
+           'harness/c04/translate.py: fail-closed ast -> Gallina translator of ActionState.execute_actions, '
+           'ActionConfiguratorMixin.action (control flow mechanical; 14-line primitive table in its docstring), ActionState.action, '
+           'expand_action_tuple, normalize_actions, ConflictResolverState.__init__ (straight-line dict builders, positions and defaults '
+           'from the signatures; the tuple model tells only the three modelled positions apart)',
            'Python sorted/list.sort/itertools.groupby/enumerate/dict ordering modelled by coq/Lib/C04Sort.v and insertion-ordered lists',
            'Configurator.include modelled only by its includepath expression (regenerated fact); the rest of include() is exercised, not modelled']
 TECHNIQUE = ('Coq proof (induction over phases / generator steps) on a hand-written Gallina model + regenerated facts + '
-             'control flow of execute_actions / Configurator.action regenerated from the source with generated = model '
+             'control flow of execute_actions / Configurator.action and the entry doors (ActionState.action, expand_action_tuple, '
+             'normalize_actions, ConflictResolverState.__init__) regenerated from the source with generated = model '
              'theorems + extracted-model differential correspondence')
-LEVEL_TEXT = ('Histories of commits on one object and repeated equal declarations are part of the compared input space. '
+LEVEL_TEXT = ('Histories of commits on one object, repeated equal declarations, falsy / absent callables and every door into '
+              'ActionState.actions (method, tuples, dicts) are part of the compared input space. Run-level theorems for re-entrant commits: '
+              'phase monotonicity, one action per discriminator, None-discriminated actions all run once, a late addition is refused '
+              '(C04_late_addition_refused) and a refusal names the phase of the last executed action; the full equality with spec_exec '
+              'for re-entrant programs is compared on every case, not proved. '
               'Machine-checked theorems about an executable model of execute_actions/resolveConflicts that follows the '
               'code statement by statement (generator suspension included); the declarative commit specification is a '
               'Gallina function returned next to the model output and compared with the real implementation on every case.')
 LEVEL_NOTE = ('Trusted: Coq kernel; hand-written model (validated by correspondence; resolveConflicts & co shape-pinned, '
-              'execute_actions and ActionConfiguratorMixin.action translated on every run and proved equal to the model); '
+              'execute_actions, ActionConfiguratorMixin.action, ActionState.action, expand_action_tuple, normalize_actions and '
+              'ConflictResolverState.__init__ translated on every run and proved equal to the model); '
               'translator primitive table; Python harness. '
               'See harness/c04/NOTES.md for which theorems are proved and which are TODO (unproved).')
 
@@ -49,11 +60,10 @@ PHASES = [-30, -20, -10, 0, 5]
 
 PIN_SPEC = {
     # ActionState.execute_actions and ActionConfiguratorMixin.action are TRANSLATED (harness/c04/translate.py), not pinned
-    'pyramid/config/actions.py': ['ActionState.action', 'ActionState.__init__', 'ActionState.processSpec',
+    # ... and so are ActionState.action, expand_action_tuple, normalize_actions, ConflictResolverState.__init__
+    'pyramid/config/actions.py': ['ActionState.__init__', 'ActionState.processSpec',
                                   'ActionConfiguratorMixin._get_action_state', 'ActionConfiguratorMixin._set_action_state',
-                                  'ConflictResolverState',
-                                  'resolveConflicts', 'normalize_actions', 'expand_action_tuple',
-                                  'ActionConfiguratorMixin.commit'],
+                                  'resolveConflicts', 'ActionConfiguratorMixin.commit'],
     'pyramid/config/__init__.py': ['Configurator.include'],
     'pyramid/registry.py': ['Deferred', 'undefer'],
     'pyramid/exceptions.py': ['ConfigurationConflictError.__init__'],
@@ -383,7 +393,17 @@ def gen_case(rng, small=False):
             for _ in range(rng.choice([1, 1, 2])):
                 if budget[0] > 0:
                     adds.append(mk(depth + 1, order if order is not None else 0))
-        return {'id': i, 'disc': [kind, dv], 'node': node, 'order': order, 'adds': adds}
+        a = {'id': i, 'disc': [kind, dv], 'node': node, 'order': order, 'adds': adds}
+        # what KIND of object the callable is (falsy callable collections/objects, partial, bound method, no callable at
+        # all) and, in direct mode, through which door the action enters ActionState.actions (method, old-style tuple
+        # of several lengths, ready-made dict)
+        if rng.random() < 0.3:
+            ck = rng.choice([1, 1, 2, 3, 4, 5, 6])
+            if ck != 6 or not adds:
+                a['ck'] = ck
+        if mode == 'direct' and rng.random() < 0.25:
+            a['tf'] = rng.choice([1, 2, 3, 4])
+        return a
 
     acts = []
     while budget[0] > 0:
@@ -485,6 +505,24 @@ SEEDS += [
 ]
 
 
+SEEDS += [
+    # the KIND of callable must not matter: falsy callable objects (empty callable list, __bool__ False, __len__ 0),
+    # partial, bound method -- with and without discriminator, overriding and overridden, re-entrant
+    {'mode': 'direct', 'nodes': [], 'actions': [dict(A(0, None, 0, 0), ck=1), dict(A(1, 1, 0, 0), ck=2), dict(A(2, None, 0, 5), ck=3)]},
+    {'mode': 'include', 'nodes': [[0, 's1']], 'actions': [dict(A(0, 1, 1, 0), ck=4), dict(A(1, 1, 0, 0), ck=1), dict(A(2, None, 1, 0), ck=1)]},
+    {'mode': 'direct', 'nodes': [], 'actions': [dict(A(0, None, 0, 0, adds=[dict(A(1, None, 0, 0), ck=2)]), ck=1)]},
+    {'mode': 'include', 'nodes': [], 'actions': [dict(A(0, 1, 0, 0), ck=5), dict(A(1, None, 0, -10), ck=3)]},
+    # an action without a callable still claims its discriminator (conflict / override) and is passed over silently
+    {'mode': 'direct', 'nodes': [], 'actions': [dict(A(0, 1, 0, 0), ck=6), A(1, 1, 0, 0)]},
+    {'mode': 'include', 'nodes': [[0, 's1']], 'actions': [A(0, 1, 1, 0), dict(A(1, 1, 0, 0), ck=6), A(2, None, 0, 0)]},
+    # the doors into ActionState.actions: old-style tuples of 6, 7, 8 positions and ready-made dicts, mixed with the method
+    {'mode': 'direct', 'nodes': [[0, 'a']], 'actions': [dict(A(0, 1, 1, 0), tf=1), dict(A(1, 1, 0, 0), tf=2), dict(A(2, None, 0, 5), tf=3)]},
+    {'mode': 'direct', 'nodes': [[0, 'a']], 'actions': [dict(A(0, 1, 0, 5), tf=4), dict(A(1, 1, 1, 5), tf=2), A(2, 2, 1, 0)]},
+    {'mode': 'direct', 'nodes': [], 'actions': [dict(A(0, None, 0, 0, adds=[dict(A(1, 1, 0, 0), tf=1), dict(A(2, 1, 0, 0), tf=4)]), tf=2)]},
+    {'mode': 'direct', 'nodes': [[0, 'a']], 'actions': [dict(A(0, 1, 1, -10, kind=1), tf=1)], 'rounds': [[dict(A(1, 1, 0, 0), tf=3, ck=1)]]},
+]
+
+
 def _walk(acts):
     for a in acts:
         yield a
@@ -534,6 +572,12 @@ def valid(case):
                 return False
             if not isinstance(a['id'], int) or not 0 <= a['id'] < 1000:
                 return False
+            if a.get('ck', 0) not in range(7) or a.get('tf', 0) not in range(5):
+                return False
+            if a.get('ck', 0) == 6 and a['adds']:
+                return False                # no callable, nothing to declare
+            if set(a) - {'id', 'disc', 'node', 'order', 'adds', 'ck', 'tf'}:
+                return False
         fz = case.get('falsy', [])
         ok_kinds = ('tuple', 'frozenset') if case['mode'] == 'include' else tuple(FALSY)
         if len({d for d, _ in fz}) != len(fz) or len({k for _, k in fz}) != len(fz):
@@ -564,6 +608,9 @@ def shrinks(case):
                 yield acts[:i] + [dict(a, order=0)] + acts[i + 1:]
             if a['node'] != 0:
                 yield acts[:i] + [dict(a, node=0)] + acts[i + 1:]
+            for opt in ('ck', 'tf'):
+                if a.get(opt):
+                    yield acts[:i] + [{k: v for k, v in a.items() if k != opt}] + acts[i + 1:]
     rs = case.get('rounds', [])
     for j in range(len(rs)):                       # drop a whole later commit, or merge nothing: just drop
         yield dict(case, rounds=rs[:j] + rs[j + 1:])
@@ -605,12 +652,22 @@ def to_wire(case):
             [_wact(a) for a in case['actions']], [[_wact(a) for a in r] for r in case.get('rounds', [])]]
 
 
+def _nocall(case):
+    return {a['id'] for a in _all_actions(case) if a.get('ck', 0) == 6}
+
+
 def from_wire(case, raw):
     if raw == [['bad']] or not isinstance(raw, list) or len(raw) != 6:
         return {'model': ['MODEL-BAD', raw], 'spec': None}
+    nc = _nocall(case)
+
+    def vis(ol):
+        # an action without a callable is executed like any other (the model's Run event = "its turn came"); only there
+        # is no callable whose call the harness could observe
+        return [ol[0], [e for e in ol[1] if not (e[0] == 0 and e[1] in nc)]] if nc else ol
     m_commit, s_commit, s_exec, flags, m_resolve, later = raw
-    return {'model': [m_commit, m_resolve, [r[0] for r in later]],
-            'spec': [s_commit, s_exec, flags, [[r[1], r[2], r[3]] for r in later]]}
+    return {'model': [vis(m_commit), m_resolve, [vis(r[0]) for r in later]],
+            'spec': [vis(s_commit), vis(s_exec), flags, [[vis(r[1]), vis(r[2]), r[3]] for r in later]]}
 
 
 # ------------------------------------------------------------------ implementation
@@ -707,31 +764,131 @@ def _outcome(fn, log, rev=None):
         return ['EXC', type(e).__name__, str(e)[:80]]
 
 
-def _rounds(case):
-    return [case['actions']] + list(case.get('rounds', []))
+
+# ---- what kind of object an action's callable is.  Every kind must be CALLED when the action is executed: execute_actions
+# may only ask `is not None`, never the truth value, the length or the type of the callable.
+class _FalsyList(list):
+    """a callable registry that is a list: empty, hence falsy, whenever commit looks at it"""
+
+    def __init__(self, body):
+        super().__init__()
+        self.body = body
+
+    def __call__(self, *a, **k):
+        return self.body(*a, **k)
+
+    __hash__ = object.__hash__
 
 
-def _run_direct(case):
-    """ONE ActionState for the whole history: declare, execute_actions(), declare more, execute_actions() again ..."""
-    state = _impl['ActionState']()
-    cur = [[]]
-    paths = _paths(case)
+class _FalsyBool:
+    def __init__(self, body):
+        self.body = body
+
+    def __bool__(self):
+        return False
+
+    def __call__(self, *a, **k):
+        return self.body(*a, **k)
+
+
+class _FalsyLen:
+    def __init__(self, body):
+        self.body = body
+
+    def __len__(self):
+        return 0
+
+    def __call__(self, *a, **k):
+        return self.body(*a, **k)
+
+
+class _Holder:
+    def __init__(self, body):
+        self.body = body
+
+    def method(self, *a, **k):
+        return self.body(*a, **k)
+
+
+def _wrap_callable(ck, body):
+    import functools
+    if ck == 1:
+        return _FalsyList(body)
+    if ck == 2:
+        return _FalsyBool(body)
+    if ck == 3:
+        return _FalsyLen(body)
+    if ck == 4:
+        return functools.partial(body)
+    if ck == 5:
+        return _Holder(body).method
+    if ck == 6:
+        return None                     # an action without a callable: it still claims its discriminator
+    return body
+
+
+def _call_args(a):
+    """(args, kw) handed over with the action; the callable checks that it receives exactly them"""
+    i = a['id']
+    return [((), None), ((i,), {'k': i}), ((i, 'x'), None)][i % 3]
+
+
+def _make_callables(case, cur, declare):
     calls = {}
 
     def callable_of(a):
         # one callable per action identity: a repeated declaration hands the SAME callable, args, kw, info again,
         # so the two action dicts compare equal
         if a['id'] not in calls:
-            def call():
-                cur[0].append([0, a['id']])
+            want_args, want_kw = _call_args(a)
+
+            def call(*args, **kw):
+                cur[0].append([0, a['id']] if (args, kw) == (want_args, want_kw or {}) else [9, a['id'], 'args'])
                 for b in a['adds']:
                     declare(b)
-            calls[a['id']] = call
+            calls[a['id']] = _wrap_callable(a.get('ck', 0), call)
         return calls[a['id']]
+    return callable_of
+
+
+def _rounds(case):
+    return [case['actions']] + list(case.get('rounds', []))
+
+
+def _run_direct(case):
+    """ONE ActionState for the whole history: declare, execute_actions(), declare more, execute_actions() again ...
+    An action enters ActionState.actions through ActionState.action(), or (field tf) as an old-style tuple of 6, 7 or
+    8 positions / a ready-made dict appended to the public `actions` list (normalize_actions / expand_action_tuple)."""
+    state = _impl['ActionState']()
+    cur = [[]]
+    paths = _paths(case)
 
     def declare(a):
-        state.action(_disc_obj(case, a, cur[0]), callable_of(a), order=a['order'], includepath=paths[a['node']],
-                     info='a%d' % a['id'])
+        disc, fn, info = _disc_obj(case, a, cur[0]), callable_of(a), 'a%d' % a['id']
+        args, kw = _call_args(a)
+        tf = a.get('tf', 0)
+        path = paths[a['node']]
+        if tf in (1, 2, 3):
+            tup = (disc, fn, args, kw, path, info, a['order'], ())
+            n = 8 if tf == 3 else 7
+            if tf == 2 and a['order'] == 0:
+                n = 6                      # the shortest tuple that says the same thing (order defaults to 0)
+            state.actions.append(tup[:n])
+        elif tf == 4:
+            state.actions.append(dict(discriminator=disc, callable=fn, args=args, kw=kw or {}, order=a['order'],
+                                      includepath=path, info=info, introspectables=()))
+        else:
+            opt = dict(info=info)
+            # the defaults of ActionState.action (order=0, includepath=()) are used where they say the same thing
+            if not (type(a['order']) is int and a['order'] == 0 and a['id'] % 2 == 0):
+                opt['order'] = a['order']
+            if not (path == () and a['id'] % 2 == 1):
+                opt['includepath'] = path
+            if kw is None:
+                state.action(disc, fn, args, **opt)
+            else:
+                state.action(disc, fn, args=args, kw=kw, **opt)
+    callable_of = _make_callables(case, cur, declare)
     res = []
     for acts in _rounds(case):
         cur[0] = []
@@ -749,7 +906,6 @@ def _run_include(case):
     cur = [[]]
     cfgs = {0: config}
     children = {}
-    calls = {}
     for k, (p, s) in enumerate(case['nodes'], start=1):
         children.setdefault(p, []).append((k, s))
 
@@ -764,19 +920,15 @@ def _run_include(case):
     for k, s in children.get(0, []):
         config.include(make_inc(k, s))
 
-    def callable_of(a):
-        if a['id'] not in calls:
-            def call():
-                cur[0].append([0, a['id']])
-                for b in a['adds']:
-                    declare(b)
-            calls[a['id']] = call
-        return calls[a['id']]
-
     def declare(a):
         cfg = cfgs[a['node']]
         cfg.info = 'a%d' % a['id']
-        cfg.action(_disc_obj(case, a, cur[0]), callable_of(a), order=a['order'])
+        args, kw = _call_args(a)
+        if kw is None:
+            cfg.action(_disc_obj(case, a, cur[0]), callable_of(a), args, order=a['order'])
+        else:
+            cfg.action(_disc_obj(case, a, cur[0]), callable_of(a), args=args, kw=kw, order=a['order'])
+    callable_of = _make_callables(case, cur, declare)
     res = []
     for acts in _rounds(case):
         cur[0] = []
@@ -788,21 +940,27 @@ def _run_include(case):
 
 
 def _run_resolve(case):
-    """resolveConflicts driven directly on a fresh state (callables are not run)."""
+    """resolveConflicts driven directly on a fresh state (callables are not run); old-style tuples are handed over as
+    tuples (resolveConflicts normalises them itself)."""
     st = _impl['CRS']()
     paths = _paths(case)
     log = []
     dicts = []
     for a in case['actions']:
-        dicts.append(dict(discriminator=_disc_obj(case, a, log), callable=None, args=(), kw={}, order=a['order'],
-                          includepath=paths[a['node']], info='a%d' % a['id'], introspectables=(), aid=a['id']))
+        disc, info, tf = _disc_obj(case, a, log), 'a%d' % a['id'], a.get('tf', 0)
+        if tf in (1, 2, 3):
+            tup = (disc, None, (), {}, paths[a['node']], info, a['order'], ())
+            dicts.append(tup[:8 if tf == 3 else 6 if (tf == 2 and a['order'] == 0) else 7])
+        else:
+            dicts.append(dict(discriminator=disc, callable=None, args=(), kw={}, order=a['order'],
+                              includepath=paths[a['node']], info=info, introspectables=()))
     got = []
 
     def go():
         for act in _impl['resolveConflicts'](dicts, state=st):
-            got.append(act['aid'])
+            got.append(_info_id(act['info']))
     out = _outcome(go, log, _disc_num(case))
-    return [out, got, [x['aid'] for x in st.remaining_actions],
+    return [out, got, [_info_id(x['info']) for x in st.remaining_actions],
             [] if st.min_order is None else [st.min_order], st.start]
 
 
@@ -939,6 +1097,23 @@ def kinds(case, obs):
         k.append('repeated-declaration')
         if any(a['adds'] for a in _all_actions(case)):
             k.append('repeated-declaration-reentrant')
+    cks = {a.get('ck', 0) for a in _all_actions(case)}
+    if cks & {1, 2, 3}:
+        k.append('callable-falsy-object')
+        if any(a.get('ck', 0) in (1, 2, 3) and a['disc'][1] is not None for a in _all_actions(case)):
+            k.append('callable-falsy-object-with-discriminator')
+    if cks & {4, 5}:
+        k.append('callable-partial-or-method')
+    if 6 in cks:
+        k.append('callable-none')
+    tfs = {a.get('tf', 0) for a in _all_actions(case)}
+    if tfs & {1, 2, 3}:
+        k.append('declared-as-tuple')
+        if any(a.get('tf', 0) in (1, 2, 3) and a['adds'] for a in _all_actions(case)) or \
+                any(b.get('tf', 0) in (1, 2, 3) for a in _all_actions(case) for b in a['adds']):
+            k.append('declared-as-tuple-reentrant')
+    if 4 in tfs:
+        k.append('declared-as-dict')
     k.append('resolve-' + ({0: 'done', 1: 'conflict', 2: 'late'}.get(res[0][0], 'other') if res[0] else 'other'))
     return k
 
